@@ -23,21 +23,24 @@ def collect(ctx):
     s1, r1 = rpcpipe.gen_scripts(ctx, sd, 6, 3, False, False, "a")
     s2, r2 = rpcpipe.gen_scripts(ctx, sd, 6, 2, True, False, "b")
     s3, r3 = rpcpipe.gen_scripts(ctx, sd, 6, 2, True, True, "c")
-    for s in (s1, s2, s3):
+    # local calls only (capabilities in parameters, releaseParamCaps, Release of parameter exports)
+    s4, r4 = rpcpipe.gen_scripts(ctx, sd, 7, 0, True, False, "d")
+    s4 = [x for x in s4 if any(a["kind"] == "withcap" for a in x)]
+    for s in (s1, s2, s3, s4):
         rng.shuffle(s)
     n = 500 if ctx.quick else 6000
     emb, est, egen = rpcpipe.gen_embargo(ctx, sd, 3 if ctx.quick else 4, 5 if ctx.quick else 7)
-    scripts = emb + s1[:n] + s2[:n] + s3[:n // 2]
+    scripts = emb + s1[:n] + s2[:n] + s3[:n // 2] + s4[:n // 2]
     if os.environ.get("VERIF_RPC_ONLY") == "embargo":      # development aid
         scripts = emb
-    ctx.log("RpcEnv: %d + %d + %d scripts, %d chosen; RpcEmbargo: %d scripts (%d states, design invariants hold, control violates InOrder)"
-            % (len(s1), len(s2), len(s3), len(scripts) - len(emb), len(emb), est))
+    ctx.log("RpcEnv: %d + %d + %d + %d scripts, %d chosen; RpcEmbargo: %d scripts (%d states, design invariants hold, control violates InOrder)"
+            % (len(s1), len(s2), len(s3), len(s4), len(scripts) - len(emb), len(emb), est))
     drv = gobuild.build(ctx, "rpcdrv")
     tf = os.path.join(sd, "rpctrace.ndjson")
     found, summ = rpcpipe.run_scripts(ctx, drv, scripts, tf)
     rej, states = rpcpipe.validate(ctx, sd, tf, None)
-    return dict(sd=sd, scripts=scripts, found=found, summ=summ, rej=rej, states=states + r1.distinct + r2.distinct + r3.distinct + est,
-                trans=r1.generated + r2.generated + r3.generated + egen, embargo=len(emb))
+    return dict(sd=sd, scripts=scripts, found=found, summ=summ, rej=rej, states=states + r1.distinct + r2.distinct + r3.distinct + r4.distinct + est,
+                trans=r1.generated + r2.generated + r3.generated + r4.generated + egen, embargo=len(emb))
 
 
 def report(ctx, res, mine, label):
